@@ -375,6 +375,7 @@ def program(r, size=3):
 # stage 13: function-valued constants  c :: mk(e)  /  c :: f : called by name and passed on.
 # stage 14: computed callees  mk(e)(a)  and lambdas called where they are written.
 # stage 15: `ret` of a function value as the last statement of a function that returns a function.
+# stage 16: early returns of function values: guards `if c do ret <function value> end` before the last statement.
 
 class FragGen:
     def __init__(self, r, stage=1):
@@ -677,7 +678,27 @@ class FragGen:
         p = self.fresh("p")
         out = ["%s :: fn %s: int -> fn int -> int do" % (f, p)]
         rt = "ret " if self.stage >= 15 and r.random() < 0.6 else ""
+        def guards(ints):
+            # stage 4k: guards, after the definitions and before the last statement
+            if self.stage < 16:
+                return
+            one = [f0 for f0, k0 in env.get("funs", []) if k0 == 1]
+            for _ in range(r.randint(1, 3)):
+                cond = "%s %s %d" % (p, r.choice(["==", "<", ">"]), r.randint(0, 6))
+                ch = r.random()
+                if ch < 0.35 and one:
+                    out.append("  if %s do ret %s end" % (cond, r.choice(one)))
+                elif ch < 0.6 and env.get("makers"):
+                    out.append("  if %s do ret %s(%s) end" % (cond, r.choice(env["makers"]), r.choice(ints + [str(r.randint(0, 9))])))
+                else:
+                    w = self.fresh("w")
+                    out.append("  if %s do" % cond)
+                    out.append("    ret fn %s: int -> int do" % w)
+                    out.append("      (%s %s %s)" % (w, r.choice(["+", "-", "*"]), r.choice(ints + [str(r.randint(0, 9))])))
+                    out.append("    end")
+                    out.append("  end")
         if env.get("makers") and r.random() < 0.3:
+            guards(list(env["ints"]) + [p])
             out.append("  %s%s(%s + %d)" % (rt, r.choice(env["makers"]), p, r.randint(0, 9)))
         else:
             fenv = {"ints": list(env["ints"]) + [p], "bools": list(env["bools"]), "muts": [], "funs": list(env.get("funs", [])),
@@ -686,6 +707,7 @@ class FragGen:
                 c = self.fresh("c")
                 out.append("  %s := %s" % (c, r.choice([p, str(r.randint(0, 9)), "%s * 2" % p])))
                 fenv["ints"].append(c); fenv["muts"].append(c)
+            guards(list(fenv["ints"]))
             z = self.fresh("z")
             fenv["ints"].append(z)
             out.append("  %sfn %s: int -> int do" % (rt, z))
